@@ -31,7 +31,7 @@ LEVEL = "exploration"
 IN_PROCESS = False
 CHUNK_TIMEOUT = 2400
 RULE = (
-    "pipeline configurations = corpus module (9 deterministic modules) x algorithm {DYNAMOSA, MOSA, MIO, WHOLE_SUITE, RANDOM} x seed x "
+    "pipeline configurations = corpus module (sut_corpus.ALL + EXTRA, deterministic modules) x algorithm {DYNAMOSA, MOSA, MIO, WHOLE_SUITE, RANDOM} x seed x "
     "budget {maximum_iterations n, maximum_test_executions n} x assertion generation {NONE, SIMPLE, MUTATION_ANALYSIS}; directed covering "
     "set (every module x algorithm once, factors rotated, identical for every check seed) first, then configurations drawn from the check "
     "seed; each configuration is run 2-3 times in fresh interpreters with PYTHONHASHSEED from {0,1,2,123,random} (some pairs with equal "
@@ -72,33 +72,41 @@ MAX_PEEL = 3
 
 
 def floors(tier):
-    k = 1 if tier == "quick" else 6
-    cl = {f"algo:{a}": 5 * k for a in ALGOS}
-    cl.update({f"ag:{a}": 8 * k for a in AGS})
-    cl.update({"budget:iterations": 12 * k, "budget:executions": 12 * k, "hashseed:random": 5 * k, "pair:same-hashseed": 3 * k,
+    k = 1 if tier == "quick" else 4
+    cl = {f"algo:{a}": 6 * k for a in ALGOS}
+    cl.update({"ag:NONE": 12 * k, "ag:SIMPLE": 8 * k, "ag:MUTATION_ANALYSIS": 5 * k})
+    cl.update({"budget:iterations": 12 * k, "budget:executions": 12 * k, "hashseed:random": 5 * k, "pair:same-hashseed": 3,
                "pair:different-hashseed": 30 * k})
-    return {"evals": 45 * k, "distinct": 30 * k, "classes": cl}
+    return {"evals": 40 * k, "distinct": 30 * k, "classes": cl}
 
 
 def _budget(kind, algo, step):
     if kind == "iterations":
-        return {"maximum_iterations": [4, 6, 8, 5][step % 4] if algo not in ("MIO", "RANDOM") else [25, 40, 60, 30][step % 4]}
-    return {"maximum_test_executions": [120, 200, 160][step % 3] if algo not in ("MIO", "RANDOM") else [30, 50, 40][step % 3]}
+        return {"maximum_iterations": [3, 4, 5, 4][step % 4] if algo not in ("MIO", "RANDOM") else [25, 40, 50, 30][step % 4]}
+    return {"maximum_test_executions": [90, 130, 110][step % 3] if algo not in ("MIO", "RANDOM") else [30, 50, 40][step % 3]}
+
+
+def _suts():
+    from vlib import sut_corpus
+
+    return list(sut_corpus.ALL) + list(getattr(sut_corpus, "EXTRA", []))
+
+
+# assertion generation per directed case: MUTATION_ANALYSIS is by far the most expensive (mutants x tests in subprocesses)
+_AG_ROTATION = ["NONE", "SIMPLE", "NONE", "MUTATION_ANALYSIS", "SIMPLE", "NONE", "SIMPLE", "NONE", "MUTATION_ANALYSIS", "NONE", "SIMPLE"]
 
 
 def _directed_cases():
-    from vlib import sut_corpus
-
     cases = []
     i = 0
-    for si, sut in enumerate(sut_corpus.ALL):
+    for si, sut in enumerate(_suts()):
         for ai, algo in enumerate(ALGOS):
             kind = "iterations" if (si + ai) % 2 == 0 else "executions"
-            ag = AGS[(si + 2 * ai) % 3]
+            ag = _AG_ROTATION[i % len(_AG_ROTATION)]
             hs = [HASHSEEDS[(si + ai) % 5], HASHSEEDS[(si + ai + 1 + (i % 3)) % 5]]
             if hs[0] == hs[1]:
                 hs[1] = HASHSEEDS[(HASHSEEDS.index(hs[1]) + 1) % 5]
-            if i % 9 == 4:
+            if i % 11 == 4:
                 hs.append(HASHSEEDS[(si + ai + 3) % 5])
             cases.append({"sut": sut, "algo": algo, "seed": 11 + (i % 2) * 31, "budget": _budget(kind, algo, i), "ag": ag, "hashseeds": hs})
             i += 1
@@ -109,32 +117,25 @@ def _directed_cases():
 
 
 def _random_case(rng):
-    from vlib import sut_corpus
-
     algo = rng.choice(ALGOS)
-    hs = rng.sample(HASHSEEDS, 3 if rng.random() < 0.2 else 2)
+    hs = rng.sample(HASHSEEDS, 3 if rng.random() < 0.15 else 2)
     if rng.random() < 0.08:
         hs = [hs[0], hs[0]] if hs[0] != "random" else ["1", "1"]
-    return {"sut": rng.choice(sut_corpus.ALL), "algo": algo, "seed": rng.randrange(1, 100_000),
-            "budget": _budget(rng.choice(["iterations", "executions"]), algo, rng.randrange(12)), "ag": rng.choice(AGS), "hashseeds": hs}
+    return {"sut": rng.choice(_suts()), "algo": algo, "seed": rng.randrange(1, 100_000),
+            "budget": _budget(rng.choice(["iterations", "executions"]), algo, rng.randrange(12)),
+            "ag": rng.choice(["NONE", "NONE", "SIMPLE", "SIMPLE", "MUTATION_ANALYSIS"]), "hashseeds": hs}
 
 
 def plan(tier, seed):
     quick = tier == "quick"
     directed = _directed_cases()
+    rng = random.Random(seed * 1_000_003 + 16)
+    rand = [_random_case(rng) for _ in range(8 if quick else 240)]
     # interleave so that every chunk gets a mix of cheap and expensive (MUTATION_ANALYSIS) cases
-    n_chunks = 16
-    specs = [{"name": "directed", "cases": directed[i::n_chunks]} for i in range(n_chunks)]
-    if not quick:
-        rng = random.Random(seed * 1_000_003 + 16)
-        rand = [_random_case(rng) for _ in range(320)]
-        specs += [{"name": "random", "cases": rand[i::32]} for i in range(32)]
-    else:
-        rng = random.Random(seed * 1_000_003 + 16)
-        rand = [_random_case(rng) for _ in range(16)]
-        for i, c in enumerate(rand):
-            specs[i % n_chunks]["cases"].append(c)
-    return specs
+    n_chunks = 16 if quick else 48
+    cases = directed + rand
+    # in the quick tier only a few diverging pairs per chunk are peeled (each level costs a full re-run of the pair)
+    return [{"name": "directed+random", "cases": cases[i::n_chunks], "max_peeled_cases": 1 if quick else 4} for i in range(n_chunks)]
 
 
 def _spec(ctx, case, proj, tag):
@@ -169,7 +170,8 @@ def _run(ctx, case, proj, tag, hashseed, fixes, breaks):
     return res, why
 
 
-def run_case(ctx, case, idx, proj, breaks=None):
+def run_case(ctx, case, idx, proj, breaks=None, peel_budget=None):
+    """peel_budget: one-element list holding the number of cases of this chunk that may still be peeled (None = no cap)."""
     from vlib.monitors import rngtap
 
     tag0 = f"{case['sut']}:{case['algo']}:seed={case['seed']}:{case['budget']}:{case['ag']}"
@@ -230,6 +232,11 @@ def run_case(ctx, case, idx, proj, breaks=None):
                 next_fix = PEEL[key]
         if next_fix is None:
             return
+        if peel_budget is not None and level == 0:
+            if peel_budget[0] <= 0:
+                ctx.count("pairs_not_peeled_for_cost")
+                return
+            peel_budget[0] -= 1
         fixes.append(next_fix)
     ctx.anomaly("peel-depth-exhausted")
 
@@ -237,10 +244,19 @@ def run_case(ctx, case, idx, proj, breaks=None):
 def run_chunk(spec, ctx):
     from vlib import sut_corpus
 
-    proj = sut_corpus.copy_to(ctx.scratch / "proj", sut_corpus.ALL)
+    proj = sut_corpus.copy_to(ctx.scratch / "proj", _suts())
+    peel_budget = [spec["max_peeled_cases"]] if spec.get("max_peeled_cases") is not None else None
     for i, case in enumerate(spec["cases"]):
-        run_case(ctx, case, i, proj, breaks=spec.get("seeded_break"))
+        run_case(ctx, case, i, proj, breaks=spec.get("seeded_break"), peel_budget=peel_budget)
     import resource
 
     ru = resource.getrusage(resource.RUSAGE_CHILDREN)
     ctx.count("cpu_s_children", round(ru.ru_utime + ru.ru_stime, 1))
+
+
+def replay(w, ctx):
+    """Re-runs the configuration of a witness (same hash seeds); the race/hash-order mechanisms are re-diagnosed."""
+    from vlib import sut_corpus
+
+    proj = sut_corpus.copy_to(ctx.scratch / "proj", _suts())
+    run_case(ctx, w["case"]["case"], 0, proj)
